@@ -86,6 +86,9 @@ def forward_ok(repo, b, v, op, nargs):
 def inplace_ok(repo, b, v, op, nargs):
     F = repo.F
     v = strip(v)
+    if op == "mul" and b.rec.get("impl_self_adt") in ("crate::fields::fq2::Fq2", "crate::fields::fq4::Fq4", "crate::fields::fq12::Fq12"):
+        # tower multiplication formulas are numerical content: any shape (Karatsuba, interleaved sums, fast paths) is outside this rule
+        return True, "multiplication formula (numerical; not decided here)"
     # (1) newtype around a limb primitive: T(after[U256::op](&self.0, &other.0, …))
     if v[0] == "agg" and len(v[3]) == 1:
         inner = strip(v[3][0])
@@ -525,6 +528,14 @@ def rule_tower_consts(prop, repo):
             ok = False
         R.check(ok, "%s:tower:Fq2::%s" % (prop, name), "Fq2::%s does not have its defining shape: %s" % (name, show(rv, maxdepth=4)[:200]), b.file_line(), b.rec["path"],
                 sample={"fn": "Fq2::" + name, "shape": show(rv, maxdepth=3)[:120]})
+    # every override of One::is_one is `*self == Self::one()` (the default's meaning)
+    for b in F.fn_bodies():
+        if b.name == "is_one" and (b.impl_trait or "").endswith("One"):
+            R.instance()
+            rv = repo.tb(b).return_value()
+            ok = rv[0] == "call" and rv[1].name == "eq" and len(rv[2]) == 2 and strip(rv[2][0]) in (("init", ("deref", 1)), ("param", 1)) and strip(rv[2][1])[0] == "call" and strip(rv[2][1])[1].name == "one" and not strip(rv[2][1])[2]
+            R.check(ok, "%s:tower:is_one:%s" % (prop, b.rec.get("impl_self_adt")), "%s is not `*self == Self::one()`: %s" % (b.rec["path"], show(rv, maxdepth=3)[:160]), b.file_line(), b.rec["path"],
+                    sample={"fn": b.rec["path"], "is": "*self == Self::one()"})
     for w, inner, idx in (("crate::Fq2::new", "new", None), ("crate::Fq2::real", "real", None), ("crate::Fq2::imaginary", "imaginary", None)):
         b = F.bodies.get(w)
         R.instance()
